@@ -105,6 +105,13 @@ M = [
     ('network', '__add_work', 'pjplan/alg/critical_path.py', "        link = self.__connect(start, end, units)\n\n        self.__links[id] = link", "        link = self.__connect(start, end, 0)\n\n        self.__links[id] = link", 'work-arc'),
     ('network', '__add_work', 'pjplan/alg/critical_path.py', "        link = self.__connect(start, end, units)\n\n        self.__links[id] = link", "        link = self.__connect(start, end, units)\n", 'work-arc'),
     ('network', '__add_work', 'pjplan/alg/critical_path.py', "        for p in predecessors:\n            link = self.__links[p]", "        for p in predecessors[1:]:\n            link = self.__links[p]", ''),
+    ('usage', 'ResourceUsageReport.__repr__', 'pjplan/schedule.py', "            d += timedelta(days=1)\n\n        return table.text_repr(True)", "            d += timedelta(days=2)\n\n        return table.text_repr(True)", 'one-line-per-day'),
+    ('usage', 'ResourceUsageReport.__repr__', 'pjplan/schedule.py', "        while d <= max_date:\n            table.new_row()", "        while d < max_date:\n            table.new_row()", 'one-line-per-day'),
+    ('usage', 'ResourceUsageReport.__repr__', 'pjplan/schedule.py', "            table.new_row()\n            table.new_cell(d.strftime('%y-%m-%d'))", "            table.new_row()", 'cell'),
+    ('usage', 'ResourceUsageReport.__repr__', 'pjplan/schedule.py', "        table.new_row()\n        table.new_cell('DATE', RED)", "        table.new_row()", 'cell'),
+    ('usage', 'ResourceUsageReport.__repr__', 'pjplan/schedule.py', "        min_date = min(dates)\n        max_date = max(dates)", "        min_date = max(dates)\n        max_date = min(dates)", ''),
+    ('usage', 'TextTable.new_row', 'pjplan/utils.py', "        self.__current_row = _TextTableRow(color, bg_color)\n        self.__rows.append(self.__current_row)", "        self.__current_row = _TextTableRow(color, bg_color)", 'new-empty-row'),
+    ('usage', '_TextTableRow.add_cell', 'pjplan/utils.py', "        self.cells.append(_TextTableCell(text, color, bg_color))", "        self.cells = [_TextTableCell(text, color, bg_color)]", ''),
     ('loops', '_check_loops_from_task', 'pjplan/schedule.py', "    visited_tasks.add(task.id)\n\n    for s in task.predecessors:", "    for s in task.predecessors:", 'KeyError'),
     ('loops', '_check_loops_from_task', 'pjplan/schedule.py', "    visited_tasks.remove(task.id)\n    validated.add(task.id)", "    validated.add(task.id)", 'visited-set-is-restored'),
     ('loops', '_check_loops_from_task', 'pjplan/schedule.py', "    visited_tasks.remove(task.id)\n    validated.add(task.id)", "    visited_tasks.remove(task.id)\n    validated.remove(task.id)", 'KeyError'),
